@@ -1,4 +1,6 @@
 """C04 - point lookup returns exactly the lowest-indexed intersecting cell."""
+import warnings
+
 import shapely
 from shapely.geometry import Point
 
@@ -58,10 +60,46 @@ def run(ctx):
     n_ds = 24 if quick else 240
     n_pts = 40 if quick else 120
     fixed = [('cf1d', dict(ny=5, nx=6)), ('cf2d', dict(ny=4, nx=4, holes='interior', bounds=True)),
-             ('shoc_standard', dict(nj=4, ni=5, holes='random')), ('ugrid', dict(w=4, h=3)), ('cf1d', dict(ny=10, nx=20))]
+             ('shoc_standard', dict(nj=4, ni=5, holes='random')), ('ugrid', dict(w=4, h=3)), ('cf1d', dict(ny=10, nx=20)),
+             # cells without coordinates AND a self-intersecting cell in one dataset
+             ('cf2d', dict(ny=3, nx=4, holes='edge', bounds=True, invalid=True)),
+             ('cf2d', dict(ny=4, nx=3, holes='corner', bounds=True, invalid=True)),
+             ('shoc_standard', dict(nj=3, ni=4, holes='edge', invalid=True))]
     datasets = [gen.any_dataset(rng, f, **kw) for f, kw in fixed]
     while len(datasets) < n_ds:
         datasets.append(gen.any_dataset(rng))
+    # which cells have a polygon at all is decided from the dataset's coordinates by the polygon model (C06); a lookup that
+    # runs on another set of cells returns the wrong cell for points of the cells that differ
+    raws = coq_eval_sharded(['Model.Polygons'], [f'(option_map (fun r => show_polys (finalize r)) {pm.raw_expr(d)})' for d in datasets],
+                            shard=8)
+    ctx.leg('coq_eval_polygons', len(datasets))
+    for d, mres in zip(datasets, raws):
+        if mres is None:
+            continue
+        m_polys = pm.model_polygons_to_float(mres.v)
+        with warnings.catch_warnings():
+            warnings.simplefilter('ignore')
+            i_polys = pm.impl_polygons(d.ds.ems)
+        for n, (ip, mp) in enumerate(zip(i_polys, m_polys)):
+            if (ip is None) == (mp is None):
+                continue
+            ring = mp if mp is not None else ip
+            c = shapely.Polygon(ring).representative_point() if shapely.Polygon(ring).is_valid else Point(*ring[0])
+            lower = [k for k, q in enumerate(m_polys[:n]) if q is not None and shapely.Polygon(q).intersects(c)]
+            want = None if mp is None and not lower else (lower[0] if lower else n)
+            with warnings.catch_warnings():
+                warnings.simplefilter('ignore')
+                r = attempt(d.ds.ems.get_index_for_point, c)
+            got = None if r[0] != 'ok' or r[1] is None else int(r[1].linear_index)
+            later = [k for k, q in enumerate(m_polys) if k > n and q is not None and shapely.Polygon(q).intersects(c)]
+            if mp is None and not lower and later:
+                want = later[0]
+            ctx.count('geometry_presence_differs')
+            if got != want:
+                ctx.report('property', f'point {(c.x, c.y)}: cell {got} returned; by the coordinates cell {n} '
+                           f'{"has no valid polygon" if mp is None else "is a valid cell"} and the lowest cell meeting the point is {want}',
+                           {'dataset': d.spec['label'], 'point': [c.x, c.y], 'cell': n})
+                break
     exprs, plans = [], []
     for d in datasets:
         ems = d.ds.ems
